@@ -90,6 +90,8 @@ class ProxyConnection:
             self.__dict__["dead"] = True
             self._raw.close()
             raise sqlite3.ProgrammingError("Cannot operate on a closed database.")
+        if k == "k":
+            raise KeyboardInterrupt("injected BaseException")
         raise sqlite3.OperationalError("injected fault: database is locked")
 
     def cursor(self, *a, **kw):
@@ -142,7 +144,7 @@ class LogicalClock:
 class World:
     """one engine + file DB + observer; executes op tokens"""
 
-    def __init__(self, reset="rollback", tag="w", poolclass="QueuePool"):
+    def __init__(self, reset="rollback", tag="w", poolclass="QueuePool", listener="none", engine_opts="none"):
         import sqlalchemy as sa
         from sqlalchemy import pool as sapool
         import sqlalchemy.pool.base as pbase
@@ -185,6 +187,24 @@ class World:
             pool_reset_on_return=ror,
             **kw,
         )
+        self.engine_opts = engine_opts
+        if engine_opts == "token":
+            self.engine = self.engine.execution_options(logging_token="eng")
+        elif engine_opts == "auto":
+            self.engine = self.engine.execution_options(isolation_level="AUTOCOMMIT")
+        elif engine_opts == "token+auto":
+            self.engine = self.engine.execution_options(logging_token="eng").execution_options(isolation_level="AUTOCOMMIT")
+        self.listener = listener
+        if listener != "none":
+            # handle_error listeners: "passive" changes nothing, "force" classifies every
+            # DBAPI error as a disconnect, "nopool" keeps the pool generation on a disconnect
+            def on_error(ectx):
+                if listener == "force" and isinstance(ectx.original_exception, sqlite3.Error):
+                    ectx.is_disconnect = True
+                elif listener == "nopool":
+                    ectx.invalidate_pool_on_disconnect = False
+
+            sa.event.listen(self.engine, "handle_error", on_error)
         md = sa.MetaData()
         self.table = sa.Table("t", md, sa.Column("id", sa.Integer, primary_key=True))
         # dialect first-connect initialisation must not be numbered / clocked: do it on a
@@ -310,6 +330,14 @@ class World:
                 self.gone = True
             elif tok == "A":
                 c.execution_options(isolation_level="AUTOCOMMIT")
+            elif tok == "U":
+                c.execution_options(isolation_level="READ UNCOMMITTED")
+            elif tok == "L":
+                c.execution_options(logging_token="conn")
+            elif tok == "O":
+                c.execution_options(stream_results=True)
+            elif tok == "LA":
+                c.execution_options(logging_token="conn", isolation_level="AUTOCOMMIT")
             elif t0 == "F":
                 self.plan.armed.append((tok[1], tok[2]))
             elif tok == "D":
@@ -338,6 +366,10 @@ class World:
             else:
                 raise ValueError("bad op " + tok)
             return "ok", sel
+        except KeyboardInterrupt as e:
+            if "injected" not in str(e):
+                raise
+            return "KBI", None
         except Exception as e:  # noqa: BLE001
             if isinstance(e, ValueError) and str(e).startswith("bad op"):
                 raise
@@ -379,9 +411,18 @@ class World:
             p = fairy.dbapi_connection
             try:
                 working = fl(sorted(r[0] for r in p._raw.execute("select id from t").fetchall()))
+            except sqlite3.ProgrammingError:
+                working = "DEAD"
             except sqlite3.Error:
                 working = "LOCKED"
-            rid = str(p.rid) + ("a" if p._raw.autocommit is True else "")
+            rid = str(p.rid)
+            try:
+                if p._raw.autocommit is True:
+                    rid += "a"
+                if p._raw.execute("PRAGMA read_uncommitted").fetchone()[0]:
+                    rid += "u"
+            except sqlite3.Error:
+                rid += "!"  # the DBAPI connection is closed underneath a Connection that still holds it
         else:
             working = rid = "x"
         return "/".join(
@@ -409,9 +450,9 @@ class World:
         return self.record(res, sel)
 
 
-def run_ops(ops, reset="rollback", tag="w", poolclass="QueuePool"):
+def run_ops(ops, reset="rollback", tag="w", poolclass="QueuePool", listener="none", engine_opts="none"):
     """-> list of observation records (strings), one per op"""
-    w = World(reset, tag, poolclass)
+    w = World(reset, tag, poolclass, listener, engine_opts)
     try:
         return [w.step(t) for t in ops]
     finally:
@@ -425,5 +466,7 @@ def parse_record(rec):
     return dict(zip(FIELDS, rec.split("/")))
 
 
-def driver_line(ops, reset="rollback"):
-    return "txn run %s %s" % (reset, ";".join(ops) if ops else "-")
+def driver_line(ops, reset="rollback", listener="none"):
+    if listener in ("none", "passive"):
+        return "txn run %s %s" % (reset, ";".join(ops) if ops else "-")
+    return "txn runl %s %s %s" % (reset, listener, ";".join(ops) if ops else "-")
